@@ -51,6 +51,11 @@ type Case struct {
 	// Timeout() is true (a modifier's own lookup timed out). Whatever its value,
 	// a modifier error is a Warning header, never the end of the exchange.
 	ErrValue string `json:"err_value,omitempty"`
+	// Body: the inner requests are POSTs with a body: "cl" (300 bytes), "cl-large"
+	// (10 000 bytes), "chunked", or "cl-request-shaped" (the body reads like a
+	// complete GET request). Whoever ends the exchange - origin, skipped round
+	// trip, failed dial - the body belongs to it and to no later exchange.
+	Body string `json:"body,omitempty"`
 	// Downstream: blind CONNECTs go through a downstream proxy; "credentials"
 	// configures it with user:password in its URL.
 	Downstream string `json:"downstream,omitempty"`
@@ -129,6 +134,7 @@ type probe struct {
 	reqOf    map[string]*http.Request
 	mitm     map[string]bool // ids whose hijack must stay silent (TLS inside)
 	multi    bool
+	stale    [][2]string // (ended exchange, exchange during which its context was still retrievable)
 	errValue string
 }
 
@@ -147,6 +153,33 @@ func wantErrText(errValue, kind, id string) string {
 		return io.ErrClosedPipe.Error()
 	}
 	return "verif-" + kind + "-" + id
+}
+
+func innerMethod(body string) string {
+	if body == "" {
+		return "GET"
+	}
+	return "POST"
+}
+
+// innerRequest is the wire form of one inner request.
+func innerRequest(body, target, host, id, beh string) string {
+	head := fmt.Sprintf("%s %s HTTP/1.1\r\nHost: %s\r\nX-Verif-Id: %s\r\nX-Verif-Beh: %s\r\n", innerMethod(body), target, host, id, beh)
+	var b string
+	switch body {
+	case "":
+		return head + "\r\n"
+	case "cl-large":
+		b = string(kit.Text(7, 10000))
+	case "cl-request-shaped":
+		b = "GET http://origin.test/smuggled-in-body-of-" + id + " HTTP/1.1\r\nHost: origin.test\r\nX-Verif-Id: smuggled-" + id + "\r\nX-Verif-Beh: pass\r\n\r\n"
+	default:
+		b = string(kit.Text(9, 300))
+	}
+	if body == "chunked" {
+		return head + "Transfer-Encoding: chunked\r\n\r\n64\r\n" + b[:100] + "\r\nc8\r\n" + b[100:300] + "\r\n0\r\n\r\n"
+	}
+	return head + fmt.Sprintf("Content-Length: %d\r\n\r\n%s", len(b), b)
 }
 
 func (p *probe) errText(kind, id string) error {
@@ -197,6 +230,13 @@ func (p *probe) ModifyRequest(req *http.Request) error {
 		p.reqOf[id] = req
 	}
 	silent := p.mitm[id]
+	// exchanges that ended earlier on this connection (their handler has
+	// returned, or this request could not have been read) must be gone
+	for _, prev := range p.calls {
+		if prev.phase == "req" && prev.sess == c.sess && prev.id != id && prev.method != "CONNECT" && prev.req != nil && martian.NewContext(prev.req) != nil {
+			p.stale = append(p.stale, [2]string{prev.id, id})
+		}
+	}
 	p.mu.Unlock()
 	var err error
 	switch beh {
@@ -556,7 +596,7 @@ func runOnce(c Case, T time.Duration) (v kit.Verdict) {
 					addf("C02/mutate/"+cn.Mode+"-connect/response-mutation-lost", "CONNECT %s: X-Mutated-Res = %q", id, res.Header.Get("X-Mutated-Res"))
 				}
 				if cn.Unreachable {
-					if res.Header.Get("Warning") == "" {
+					if c.Downstream == "" && res.Header.Get("Warning") == "" {
 						addf("C02/connect/blind/502-without-warning", "CONNECT to an unreachable target: 502 without Warning")
 					}
 					_ = body
@@ -621,7 +661,7 @@ func runOnce(c Case, T time.Duration) (v kit.Verdict) {
 						target, host = "http://down.test/"+id, "down.test"
 					}
 				}
-				if err := send(fmt.Sprintf("GET %s HTTP/1.1\r\nHost: %s\r\nX-Verif-Id: %s\r\nX-Verif-Beh: %s\r\n\r\n", target, host, id, beh)); err != nil {
+				if err := send(innerRequest(c.Body, target, host, id, beh)); err != nil {
 					addf("C02/exchange/"+cn.Mode+"/client-write-failed", "exchange %s: %v", id, err)
 					return
 				}
@@ -636,7 +676,7 @@ func runOnce(c Case, T time.Duration) (v kit.Verdict) {
 					afterHijack(id, marker, tlsInside)
 					return
 				}
-				res, body, err := readResp("GET")
+				res, body, err := readResp(innerMethod(c.Body))
 				if err != nil {
 					class := "no-response"
 					if netkit.IsTimeout(err) {
@@ -814,6 +854,12 @@ func runOnce(c Case, T time.Duration) (v kit.Verdict) {
 			}
 		}
 	}
+	pb.mu.Lock()
+	for _, st := range pb.stale {
+		v.Addf("C02/context/any/context-of-ended-exchange-retrievable-during-next", "the context of exchange %s (ended: its response was delivered and the next request read) was still retrievable when the request modifier of %s ran on the same connection", st[0], st[1])
+		break
+	}
+	pb.mu.Unlock()
 	// (e) nothing retrievable after the end
 	leaked := 0
 	for _, cl := range calls {
@@ -855,6 +901,7 @@ func genCase(t *rapid.T) Case {
 		c.MultilineErrors = false
 	}
 	c.Shaped = rapid.IntRange(0, 4).Draw(t, "shaped") == 0
+	c.Body = rapid.SampledFrom([]string{"", "", "", "cl", "cl-large", "chunked", "cl-request-shaped", "cl-request-shaped"}).Draw(t, "body")
 	if family == "blind" && rapid.Bool().Draw(t, "via_downstream") {
 		c.Downstream = rapid.SampledFrom([]string{"plain", "credentials"}).Draw(t, "downstream")
 	}
@@ -869,8 +916,8 @@ func genCase(t *rapid.T) Case {
 		cn := Conn{Mode: mode}
 		if mode != "plain" {
 			cn.ConnectBeh = rapid.SampledFrom([]string{bPass, bPass, bPass, bMutate, bReqErr, bResErr, bHijReq, bHijRes}).Draw(t, "connect_beh")
-			if mode == "blind" && c.Downstream == "" {
-				// (through a downstream proxy the refusal is that proxy's answer, not martian's)
+			if mode == "blind" {
+				// (through a downstream proxy the refusal is that proxy's answer, which martian relays)
 				cn.Unreachable = rapid.IntRange(0, 4).Draw(t, "unreachable") == 0
 			}
 		}
@@ -925,6 +972,9 @@ func classes(c Case) []string {
 		}
 		if cn.Unreachable {
 			set["unreachable-target"] = true
+			if c.Downstream != "" {
+				set["connect-refused-by-downstream-proxy"] = true
+			}
 		}
 	}
 	if len(c.Conns) >= 2 {
@@ -941,6 +991,16 @@ func classes(c Case) []string {
 	}
 	if c.ErrValue != "" {
 		set["error-value-"+c.ErrValue] = true
+	}
+	if c.Body != "" {
+		set["request-bodies-"+c.Body] = true
+		for _, cn := range c.Conns {
+			for i, b := range cn.Inner {
+				if (b == bSkip || b == bDown) && i+1 < len(cn.Inner) {
+					set["unread-request-body-then-next-exchange"] = true
+				}
+			}
+		}
 	}
 	if c.Shaped {
 		set["traffic-shaped-listener"] = true
